@@ -20,6 +20,9 @@ TYPES = {
     "enum_ab": ({"type": "string", "enum": ["a", "b"]}, ["a", "b"], "zz", "b"),
     "integer": (INT, [1, -5], None, 7),
     "u8": ({"type": "integer", "format": "uint8", "minimum": 0}, [0, 255], None, 9),
+    "i32_neg": ({"type": "integer", "format": "int32"}, [3, -4], None, -5),
+    "i8_min": ({"type": "integer", "format": "int8"}, [-128, 127], None, -128),
+    "num_neg": ({"type": "number"}, [1.5, -0.5], None, -2.5),
     "bool": ({"type": "boolean"}, [True, False], None, True),
     "vec": ({"type": "array", "items": INT}, [[1, 2], []], None, [3]),
     "tuple1": ({"type": "array", "items": [INT], "minItems": 1, "maxItems": 1}, [[5], [0]], None, [7]),
